@@ -45,6 +45,30 @@ CHECKS = {
  "C20": ("exploration", "runtime monitoring: shadow-state monitor derived from the statement, compared with the real TimeoutManager after every event of PRNG histories in virtual time",
          "Histories of Sent/Received events with arbitrary virtual gaps; the monitor checks the floor, where the value may change, the exact recomputed value and the one-step-per-interval boost rule.",
          "duration comparison with 1e-5 relative tolerance", "3/C20", True),
+ "C03": ("exploration", "runtime monitoring: real noise Machines over a recording duplex; mismatch cases (single-bit passphrase differences, wrong stored keys) x version ranges x payload sizes with a matching-secret control; oracles on what the responder wrote, both results, snapshots and ConnData",
+         "Every mismatch case is paired with its matching control so that the monitor cannot pass vacuously; the responder's written byte count is the observable form of 'auth payload never released'.",
+         "observable secrecy only; rpctest scrypt", "3/C03", True),
+ "C04": ("exploration", "runtime monitoring: man-in-the-middle rewriting of real handshakes (all version-byte substitutions across acts, single-bit flips of handshake bytes) over all version-range combinations, both patterns, payload sizes to MiB; view-agreement oracle over machine snapshots and ConnData",
+         "For every trial NOT(both complete AND views differ); violating version rewrites are minimised so that the finding key names the smallest tampering.",
+         "which range combinations complete is not judged", "3/C04", True),
+ "C05": ("exploration", "runtime monitoring in real time: full stack (real Server/Client, GBN, NoiseGrpcConn) over an in-memory relay with fault injection; position-by-position byte-stream oracle, ciphertext-only scan of everything the relay saw, re-run rule for progress",
+         "Sessions run in parallel with PRNG write/read-buffer sizes and relay fault profiles; safety oracles are time-independent; a progress miss must reproduce alone with a 300 s allowance before it counts.",
+         "relay is a model of aperture's hashmail server; real-time progress verdicts follow DESIGN 1.3", "3/C05", True),
+ "C08": ("exploration", "runtime monitoring: (key, nonce) registry read through the hook before every write, lock-step rotation comparison, ciphertext distinctness and plaintext-marker scan over thousands of records with PRNG interleaving of the two directions",
+         "Up to 6000 records per direction (12 rotations) with bursts that cross rotation boundaries in both directions while records are in flight.",
+         "observable secrecy only", "3/C08", True),
+ "C11": ("exploration", "runtime monitoring in real time: scripted sessions over real Server.Accept / Client.Dial with gRPC-like drivers on an in-memory relay; exclusivity checked at every hand-out plus porcupine one-slot-lock model; rendezvous ids read from connection addresses and relay log; intruder and outdated-client steps; raw partial-read generations",
+         "Close-by-client / close-by-server / relay-failure / idle events in PRNG order, each followed by an echo on the current or a fresh connection; after pairing every connection must live at the key-derived rendezvous.",
+         "real-time liveness verdicts follow the re-run rule", "3/C11", True),
+ "C15": ("exploration", "runtime monitoring: net.Conn contract oracle (n<=len(buf), untouched tail, stream equality, write counts) over NoiseGrpcConn, NoiseConn and the plain mailbox connKit with PRNG write sizes and read-buffer sizes",
+         "Read buffers from 1 byte to larger than a record; writes up to 300000 bytes on the TCP variant; oversized writes on the gRPC variant must fail cleanly.",
+         "empty-record behaviour beyond the three clauses is not judged", "3/C15", True),
+ "C16": ("exploration", "runtime monitoring: the same (deterministic-ephemeral) handshake and records run unfragmented and through fragmenting readers; partial-write writer with timeout errors over all two- and three-way splits of a record, compared byte-for-byte with a bit-identical twin session",
+         "Outcome equality under read fragmentation; emitted-bytes equality, flushed-count sum and ErrMessageNotFlushed under partial writes.",
+         "twin sessions via BrontideMachineConfig.EphemeralGen", "3/C16", True),
+ "C17": ("exploration", "runtime monitoring: algebraic identities of the real mnemonic codec against an independent 11-bit packer; SID agreement/distinctness through the real ConnData.SID/GetSID; stream ids of real ClientConn/ServerConn read from their addresses and from the relay log",
+         "Boundary entropies (leading zero bytes, single bits), first/last list words in every position, key-derived and passphrase-derived SIDs for PRNG key triples.",
+         "distinctness is over the sample", "3/C17", True),
 }
 
 PLANNED = {}
